@@ -1625,14 +1625,86 @@ fn generate(rng: &mut Rng) -> Generated {
     Generated { prog: p, alphabet, extra }
 }
 
+/// A hand-built program of the repository's unit tests with one to three random edits: the
+/// unit-test programs seed the pool (DESIGN §6 C05 W).
+fn generate_from_hand_built(rng: &mut Rng) -> Option<Generated> {
+    let n_run = hand::RUN_CASES.len();
+    let n_comp = hand::COMPILER_PROGRAMS.len();
+    let pick = rng.usize_below(n_run + n_comp + hand::LOOP_CASES.len());
+    let (text, rb): (String, Option<u8>) = if pick < n_run {
+        (hand::expand(hand::RUN_CASES[pick].program), Some(hand::LIGAROO_BOUNDARY))
+    } else if pick < n_run + n_comp {
+        (hand::COMPILER_PROGRAMS[pick - n_run].1.to_string(), None)
+    } else {
+        (hand::LOOP_CASES[pick - n_run - n_comp].1.to_string(), if rng.coin() { Some(hand::LIGAROO_BOUNDARY) } else { None })
+    };
+    let mut p = hand::parse_ligtable(&text, rb).ok()?;
+    if p.instrs.is_empty() {
+        return None;
+    }
+    let mut letters: BTreeSet<u8> = p.entry.keys().copied().collect();
+    for ins in &p.instrs {
+        if Some(ins.right) != rb {
+            letters.insert(ins.right);
+        }
+        if let lk::Op::Lig { insert, .. } = ins.op {
+            letters.insert(insert);
+        }
+    }
+    let alphabet: Vec<u8> = letters.into_iter().collect();
+    let mut rights = alphabet.clone();
+    rights.extend(rb);
+    for _ in 0..rng.range_usize(1, 3) {
+        let i = rng.usize_below(p.instrs.len());
+        match rng.below(6) {
+            0 | 1 => {
+                // another of the eight forms (or turn a kern into a ligature step)
+                let insert = match p.instrs[i].op {
+                    lk::Op::Lig { insert, .. } => insert,
+                    _ => *rng.pick(&alphabet),
+                };
+                p.instrs[i].op = lk::Op::Lig { code: *rng.pick(&lk::LIG_CODES), insert };
+            }
+            2 => {
+                if let lk::Op::Lig { code, .. } = p.instrs[i].op {
+                    p.instrs[i].op = lk::Op::Lig { code, insert: *rng.pick(&alphabet) };
+                }
+            }
+            3 => p.instrs[i].right = *rng.pick(&rights),
+            4 => p.instrs[i].op = lk::Op::Kern(random_kern(rng)),
+            _ => {
+                // a new one-instruction program for some character, or for the left boundary
+                let at = p.instrs.len();
+                p.instrs.push(lk::Instr {
+                    skip: None,
+                    right: *rng.pick(&rights),
+                    op: lk::Op::Lig { code: *rng.pick(&lk::LIG_CODES), insert: *rng.pick(&alphabet) },
+                });
+                if rng.chance(1, 4) {
+                    p.left_entry = Some(at);
+                } else {
+                    p.entry.insert(*rng.pick(&alphabet), at);
+                }
+            }
+        }
+    }
+    let extra = rb.filter(|r| !alphabet.contains(r));
+    Some(Generated { prog: p, alphabet, extra })
+}
+
 fn random_case(rng: &mut Rng, obs: &mut Obs) {
-    let g = generate(rng);
+    let seeded = if rng.chance(1, 8) { generate_from_hand_built(rng) } else { None };
+    let from_hand = seeded.is_some();
+    let g = match seeded {
+        Some(g) => g,
+        None => generate(rng),
+    };
     let design = random_design(rng);
     let mode = if rng.chance(1, 3) { KernMode::Indexed } else { KernMode::Inline };
     if !g.prog.well_formed() {
         return obs.inconclusive("generator produced a program outside TeX's domain");
     }
-    let mut words = words_up_to(&g.alphabet, 4);
+    let mut words = words_up_to(&g.alphabet, if g.alphabet.len() <= 5 { 4 } else { 3 });
     for _ in 0..40 {
         let n = rng.range_usize(5, 12);
         words.push((0..n).map(|_| *rng.pick(&g.alphabet)).collect());
@@ -1666,6 +1738,9 @@ fn random_case(rng: &mut Rng, obs: &mut Obs) {
         }
         if mode == KernMode::Indexed {
             obs.count("programs:kerns_through_kern_table");
+        }
+        if from_hand {
+            obs.count("programs:edited_hand_built_program");
         }
     }
     if o.nontrivial {
